@@ -174,7 +174,10 @@ def oracle(case, rec, an, streams, mb):
     if case.get("forced") or stats.get("cascaded_stripes"):
         # rolling buffers tall enough: decided by the tag machine on every schedule that has a cascade (forced or chosen)
         v3, s3 = c03.run_tag_machine(case, rec, an, streams)
-        viol += [("rolling|" + k, w) for k, w in v3]
+        # a stream holding a geometrically inconsistent op (known defect family, reported by C02/C03 under its root cause)
+        # fetches garbage through that op; its stray reads say nothing about rolling buffers
+        if not any(netrun.geometry_mismatch(s, oi) for s in streams for oi in range(len(s.ops))):
+            viol += [("rolling|" + k, w) for k, w in v3]
         stats["tag_bytes_checked"] = s3.get("bytes_checked", 0)
         stats["tag_rolling_reads"] = s3.get("rolling_reads", 0)
     return viol, stats
